@@ -28,9 +28,16 @@ SYNTH = {
     "TPMS_SYN_F": {"kind": "struct", "fields": [{"name": "count", "type": "UINT8"}, {"name": "flags", "type": {"list": "TPMI_YES_NO"}}, {"name": "n", "type": "UINT16"},
                                                 {"name": "modes", "type": {"list": "VENDOR_MODE"}}, {"name": "tail", "type": "UINT8"}]},
     "TPM2B_SYN_F": {"kind": "tpm2b", "fields": [{"name": "size", "type": "UINT16"}, {"name": "f", "type": "TPMS_SYN_F"}]},
+    # parallel arrays: two lists share one count (the library takes the nearest preceding non-list member), alone and embedded
+    "TPMS_SYN_P": {"kind": "struct", "fields": [{"name": "count", "type": "UINT8"}, {"name": "keys", "type": {"list": "BYTE"}}, {"name": "values", "type": {"list": "UINT16"}},
+                                                {"name": "tail", "type": "UINT8"}]},
+    "TPMS_SYN_PR": {"kind": "struct", "fields": [{"name": "digest", "type": "TPM2B_SYN_L0"}, {"name": "table", "type": "TPMS_SYN_P"}, {"name": "modes", "type": "TPMS_SYN_F"}]},
+    # a session dump: the library's own session structures in a *counted* list (in commands / responses their list is sized in bytes)
+    "TPMS_SYN_S": {"kind": "struct", "fields": [{"name": "count", "type": "UINT8"}, {"name": "sessions", "type": {"list": "TPMS_AUTH_COMMAND"}}, {"name": "n", "type": "UINT8"}]},
+    "TPMS_SYN_SR": {"kind": "struct", "fields": [{"name": "count", "type": "UINT8"}, {"name": "sessions", "type": {"list": "TPMS_AUTH_RESPONSE"}}]},
     "TPMS_SYN_ROOT": {"kind": "struct", "fields": [{"name": "l4", "type": "TPM2B_SYN_L4"}, {"name": "u", "type": "TPM2B_SYN_U"}, {"name": "end", "type": "UINT8"}]},
 }
-ROOTS = ["TPM2B_SYN_L1", "TPM2B_SYN_L2", "TPM2B_SYN_L3", "TPM2B_SYN_L4", "TPM2B_SYN_U", "TPMS_SYN_ROOT", "TPMS_SYN_B", "TPMS_SYN_V", "TPM2B_SYN_V", "TPMS_SYN_F", "TPM2B_SYN_F"]
+ROOTS = ["TPM2B_SYN_L1", "TPM2B_SYN_L2", "TPM2B_SYN_L3", "TPM2B_SYN_L4", "TPM2B_SYN_U", "TPMS_SYN_ROOT", "TPMS_SYN_B", "TPMS_SYN_V", "TPM2B_SYN_V", "TPMS_SYN_F", "TPM2B_SYN_F", "TPMS_SYN_P", "TPMS_SYN_PR", "TPMS_SYN_S", "TPMS_SYN_SR"]
 
 _REAL = None
 
